@@ -17,6 +17,7 @@ Definition dense_mvcapa_penalty_alpha_R (n : nat) (p : nat) (npv : nat) (scale :
 Definition dense_mvcapa_penalty_beta_R (n : nat) (p : nat) (npv : nat) (scale : R) : R := 0.
 Definition sparse_mvcapa_penalty_alpha_R (n : nat) (p : nat) (npv : nat) (scale : R) : R := ((2 * scale) * (ln (INR (n)%nat))).
 Definition sparse_mvcapa_penalty_beta_R (n : nat) (p : nat) (npv : nat) (scale : R) : R := ((2 * scale) * (ln (INR ((npv * p))%nat))).
+Definition intermediate_penalty_curve_R (n : nat) (p : nat) (npv : nat) (scale : R) (j : nat) (c_j : R) (f_j : R) : R := (scale * ((((2 * ((ln (INR (n)%nat)) + (ln (INR (p)%nat)))) + (INR ((j * npv))%nat)) + (((INR ((2 * p))%nat) * c_j) * f_j)) + (2 * (sqrt (((INR ((j * npv))%nat) + (((INR ((2 * p))%nat) * c_j) * f_j)) * ((ln (INR (n)%nat)) + (ln (INR (p)%nat)))))))).
 Definition pelt_default_penalty_R (n : nat) (p : nat) : R := ((INR ((2 * p))%nat) * (ln (INR (n)%nat))).
 Definition sbs_default_threshold_R (n : nat) (p : nat) : R := ((INR ((2 * p))%nat) * (sqrt (ln (INR (n)%nat)))).
 Definition mw_default_threshold_R (n : nat) (p : nat) (b : nat) (level : R) : R := (((INR (p)%nat) * (((((2 * (ln ((INR (n)%nat) / (INR (b)%nat)))) + ((1 / 2) * (ln (ln ((INR (n)%nat) / (INR (b)%nat)))))) + (ln (3 / 2))) - ((1 / 2) * (ln PI))) + (- (ln (ln (1 / (sqrt (1 - level)))))))) / (sqrt (2 * (ln ((INR (n)%nat) / (INR (b)%nat)))))).
